@@ -50,7 +50,7 @@ ASSUMPTIONS = [
     "functions that return fresh arrays",
     "execution_time is excluded from every comparison",
 ]
-N_RUNS = {"quick": 320, "thorough": 6000}
+N_RUNS = {"quick": 700, "thorough": 6000}
 NONTRIVIAL_OPS = 3
 CUSTOM_KEYS = ["alpha", "beta", "G", "NF", "BW", "Vpi", "label"]
 
@@ -65,7 +65,7 @@ def tasks(tier, master):
 # ----------------------------------------------------------------------------
 def gen_gv(rng):
     sps = rng.choice([2, 3, 4, 5, 8, 16, 16, 32, 64])
-    R = rng.choice([1e9, 2.5e9, 10e9, 25e9, 1e6, 12.5e9])
+    R = rng.choice([1e9, 2.5e9, 10e9, 25e9, 1e6, 12.5e9, 10e9 / 3])      # the last one is not a whole number of Hz
     form = rng.choice(["sps,R", "sps,fs", "R,fs", "sps,R,fs", "sps", "R", "fsmult", "none", "sps,R", "sps,R"])
     kw = {}
     if form == "fsmult":
@@ -78,6 +78,8 @@ def gen_gv(rng):
             kw["R"] = R
         if "fs" in parts:
             kw["fs"] = R * sps
+            if "sps" not in parts and rng.random() < 0.35:
+                kw["fs"] = float(np.nextafter(R * sps, 0))      # fs = 1/dt from a sampling interval: an ulp below
     if rng.random() < 0.35:
         kw["wavelength"] = rng.choice(common.WL_SET)
     if rng.random() < 0.45:
